@@ -232,7 +232,7 @@ func (h *Handler) handleRequest(host *packet.Host, p packet.DHCP4, options packe
 	lease.Name = nameEntry.Name
 	if lease.State == StateDiscover {
 		// an address can be on offer to several clients; it goes to the first one that requests it
-		if l := h.findByIP(lease.IPOffer); l != nil && l != lease && l.State == StateAllocated {
+		if l := h.findByIP(lease.IPOffer); l != nil && l != lease && l.State != StateFree {
 			Logger.Msg("request NACK - offered address was taken by another client").ByteArray("xid", p.XId()).IP("ip", lease.IPOffer).Write()
 			lease.State = StateFree
 			lease.IPOffer = netip.Addr{}
